@@ -2,8 +2,9 @@
 // equally, the ordering is total (antisymmetric, transitive) and Equal exactly when ==.
 // Primitive kinds {Extant, Int32, Int64, UInt32, UInt64, Boolean, Float64} with FULLY symbolic payloads; every harness is
 // loop-free (floats are bit-precise in CBMC) => each is a complete proof of its cell, not a bounded check.
-// `nf_*` harnesses: all kind combinations WITHOUT Float64 at once (kind chosen symbolically).
-// `f_*` / `f3_*` harnesses: one cell per kind combination that contains Float64, so that a float finding is pinned to its cell.
+// One harness per kind combination ("cell"): refl_<k>, pair_<k1>_<k2> (unordered pair, both argument orders checked by the
+// symmetric formulation of the laws), triple_<k1>_<k2>_<k3> (kind multiset, the arrangement of the three values is symbolic),
+// so a finding is pinned to its cell and a new incoherent cell is reported separately.
 use super::*;
 use std::cmp::Ordering;
 use std::hash::{Hash, Hasher};
@@ -44,11 +45,6 @@ fn mk(kind: u8) -> Value {
         _ => Value::Float64Value(kani::any()),
     }
 }
-fn nf() -> Value {
-    let k: u8 = kani::any();
-    kani::assume(k < 6);
-    mk(k)
-}
 fn rev(o: Ordering) -> Ordering {
     o.reverse()
 }
@@ -87,247 +83,743 @@ fn arrange(x: Value, y: Value, z: Value) -> (Value, Value, Value) {
 }
 
 #[kani::proof]
-fn nf_refl() {
-    let a = nf();
+fn refl_extant() {
+    let a = mk(0);
     kani::cover!(true, "COV reached");
     law_refl(&a);
 }
 #[kani::proof]
-fn nf_pair() {
-    let a = nf();
-    let b = nf();
-    kani::cover!(a == b, "COV equal_pair");
-    kani::cover!(a != b, "COV unequal_pair");
-    law_pair(&a, &b);
+fn refl_i32() {
+    let a = mk(1);
+    kani::cover!(true, "COV reached");
+    law_refl(&a);
 }
 #[kani::proof]
-fn nf_triple() {
-    let a = nf();
-    let b = nf();
-    let c = nf();
-    kani::cover!(a == b && b == c, "COV equal_triple");
-    kani::cover!(a.cmp(&b) == Ordering::Less && b.cmp(&c) == Ordering::Less, "COV chain");
-    law_triple(&a, &b, &c);
+fn refl_i64() {
+    let a = mk(2);
+    kani::cover!(true, "COV reached");
+    law_refl(&a);
 }
 #[kani::proof]
-fn f_refl() {
+fn refl_u32() {
+    let a = mk(3);
+    kani::cover!(true, "COV reached");
+    law_refl(&a);
+}
+#[kani::proof]
+fn refl_u64() {
+    let a = mk(4);
+    kani::cover!(true, "COV reached");
+    law_refl(&a);
+}
+#[kani::proof]
+fn refl_bool() {
+    let a = mk(5);
+    kani::cover!(true, "COV reached");
+    law_refl(&a);
+}
+#[kani::proof]
+fn refl_f64() {
     let a = mk(6);
     kani::cover!(true, "COV reached");
     law_refl(&a);
 }
 #[kani::proof]
-fn f_pair_extant() {
-    let a = mk(6);
+fn pair_extant_extant() {
+    let a = mk(0);
     let b = mk(0);
     kani::cover!(true, "COV reached");
     law_pair(&a, &b);
 }
 #[kani::proof]
-fn f_pair_i32() {
-    let a = mk(6);
+fn pair_extant_i32() {
+    let a = mk(0);
     let b = mk(1);
     kani::cover!(true, "COV reached");
     law_pair(&a, &b);
 }
 #[kani::proof]
-fn f_pair_i64() {
-    let a = mk(6);
+fn pair_extant_i64() {
+    let a = mk(0);
     let b = mk(2);
     kani::cover!(true, "COV reached");
     law_pair(&a, &b);
 }
 #[kani::proof]
-fn f_pair_u32() {
-    let a = mk(6);
+fn pair_extant_u32() {
+    let a = mk(0);
     let b = mk(3);
     kani::cover!(true, "COV reached");
     law_pair(&a, &b);
 }
 #[kani::proof]
-fn f_pair_u64() {
-    let a = mk(6);
+fn pair_extant_u64() {
+    let a = mk(0);
     let b = mk(4);
     kani::cover!(true, "COV reached");
     law_pair(&a, &b);
 }
 #[kani::proof]
-fn f_pair_bool() {
-    let a = mk(6);
+fn pair_extant_bool() {
+    let a = mk(0);
     let b = mk(5);
     kani::cover!(true, "COV reached");
     law_pair(&a, &b);
 }
 #[kani::proof]
-fn f_pair_f64() {
+fn pair_extant_f64() {
+    let a = mk(0);
+    let b = mk(6);
+    kani::cover!(true, "COV reached");
+    law_pair(&a, &b);
+}
+#[kani::proof]
+fn pair_i32_i32() {
+    let a = mk(1);
+    let b = mk(1);
+    kani::cover!(true, "COV reached");
+    law_pair(&a, &b);
+}
+#[kani::proof]
+fn pair_i32_i64() {
+    let a = mk(1);
+    let b = mk(2);
+    kani::cover!(true, "COV reached");
+    law_pair(&a, &b);
+}
+#[kani::proof]
+fn pair_i32_u32() {
+    let a = mk(1);
+    let b = mk(3);
+    kani::cover!(true, "COV reached");
+    law_pair(&a, &b);
+}
+#[kani::proof]
+fn pair_i32_u64() {
+    let a = mk(1);
+    let b = mk(4);
+    kani::cover!(true, "COV reached");
+    law_pair(&a, &b);
+}
+#[kani::proof]
+fn pair_i32_bool() {
+    let a = mk(1);
+    let b = mk(5);
+    kani::cover!(true, "COV reached");
+    law_pair(&a, &b);
+}
+#[kani::proof]
+fn pair_i32_f64() {
+    let a = mk(1);
+    let b = mk(6);
+    kani::cover!(true, "COV reached");
+    law_pair(&a, &b);
+}
+#[kani::proof]
+fn pair_i64_i64() {
+    let a = mk(2);
+    let b = mk(2);
+    kani::cover!(true, "COV reached");
+    law_pair(&a, &b);
+}
+#[kani::proof]
+fn pair_i64_u32() {
+    let a = mk(2);
+    let b = mk(3);
+    kani::cover!(true, "COV reached");
+    law_pair(&a, &b);
+}
+#[kani::proof]
+fn pair_i64_u64() {
+    let a = mk(2);
+    let b = mk(4);
+    kani::cover!(true, "COV reached");
+    law_pair(&a, &b);
+}
+#[kani::proof]
+fn pair_i64_bool() {
+    let a = mk(2);
+    let b = mk(5);
+    kani::cover!(true, "COV reached");
+    law_pair(&a, &b);
+}
+#[kani::proof]
+fn pair_i64_f64() {
+    let a = mk(2);
+    let b = mk(6);
+    kani::cover!(true, "COV reached");
+    law_pair(&a, &b);
+}
+#[kani::proof]
+fn pair_u32_u32() {
+    let a = mk(3);
+    let b = mk(3);
+    kani::cover!(true, "COV reached");
+    law_pair(&a, &b);
+}
+#[kani::proof]
+fn pair_u32_u64() {
+    let a = mk(3);
+    let b = mk(4);
+    kani::cover!(true, "COV reached");
+    law_pair(&a, &b);
+}
+#[kani::proof]
+fn pair_u32_bool() {
+    let a = mk(3);
+    let b = mk(5);
+    kani::cover!(true, "COV reached");
+    law_pair(&a, &b);
+}
+#[kani::proof]
+fn pair_u32_f64() {
+    let a = mk(3);
+    let b = mk(6);
+    kani::cover!(true, "COV reached");
+    law_pair(&a, &b);
+}
+#[kani::proof]
+fn pair_u64_u64() {
+    let a = mk(4);
+    let b = mk(4);
+    kani::cover!(true, "COV reached");
+    law_pair(&a, &b);
+}
+#[kani::proof]
+fn pair_u64_bool() {
+    let a = mk(4);
+    let b = mk(5);
+    kani::cover!(true, "COV reached");
+    law_pair(&a, &b);
+}
+#[kani::proof]
+fn pair_u64_f64() {
+    let a = mk(4);
+    let b = mk(6);
+    kani::cover!(true, "COV reached");
+    law_pair(&a, &b);
+}
+#[kani::proof]
+fn pair_bool_bool() {
+    let a = mk(5);
+    let b = mk(5);
+    kani::cover!(true, "COV reached");
+    law_pair(&a, &b);
+}
+#[kani::proof]
+fn pair_bool_f64() {
+    let a = mk(5);
+    let b = mk(6);
+    kani::cover!(true, "COV reached");
+    law_pair(&a, &b);
+}
+#[kani::proof]
+fn pair_f64_f64() {
     let a = mk(6);
     let b = mk(6);
     kani::cover!(true, "COV reached");
     law_pair(&a, &b);
 }
 #[kani::proof]
-fn f3_extant_extant() {
-    let (a, b, c) = arrange(mk(6), mk(0), mk(0));
+fn triple_extant_extant_extant() {
+    let (a, b, c) = arrange(mk(0), mk(0), mk(0));
     kani::cover!(true, "COV reached");
     law_triple(&a, &b, &c);
 }
 #[kani::proof]
-fn f3_extant_i32() {
-    let (a, b, c) = arrange(mk(6), mk(0), mk(1));
+fn triple_extant_extant_i32() {
+    let (a, b, c) = arrange(mk(0), mk(0), mk(1));
     kani::cover!(true, "COV reached");
     law_triple(&a, &b, &c);
 }
 #[kani::proof]
-fn f3_extant_i64() {
-    let (a, b, c) = arrange(mk(6), mk(0), mk(2));
+fn triple_extant_extant_i64() {
+    let (a, b, c) = arrange(mk(0), mk(0), mk(2));
     kani::cover!(true, "COV reached");
     law_triple(&a, &b, &c);
 }
 #[kani::proof]
-fn f3_extant_u32() {
-    let (a, b, c) = arrange(mk(6), mk(0), mk(3));
+fn triple_extant_extant_u32() {
+    let (a, b, c) = arrange(mk(0), mk(0), mk(3));
     kani::cover!(true, "COV reached");
     law_triple(&a, &b, &c);
 }
 #[kani::proof]
-fn f3_extant_u64() {
-    let (a, b, c) = arrange(mk(6), mk(0), mk(4));
+fn triple_extant_extant_u64() {
+    let (a, b, c) = arrange(mk(0), mk(0), mk(4));
     kani::cover!(true, "COV reached");
     law_triple(&a, &b, &c);
 }
 #[kani::proof]
-fn f3_extant_bool() {
-    let (a, b, c) = arrange(mk(6), mk(0), mk(5));
+fn triple_extant_extant_bool() {
+    let (a, b, c) = arrange(mk(0), mk(0), mk(5));
     kani::cover!(true, "COV reached");
     law_triple(&a, &b, &c);
 }
 #[kani::proof]
-fn f3_extant_f64() {
-    let (a, b, c) = arrange(mk(6), mk(0), mk(6));
+fn triple_extant_extant_f64() {
+    let (a, b, c) = arrange(mk(0), mk(0), mk(6));
     kani::cover!(true, "COV reached");
     law_triple(&a, &b, &c);
 }
 #[kani::proof]
-fn f3_i32_i32() {
-    let (a, b, c) = arrange(mk(6), mk(1), mk(1));
+fn triple_extant_i32_i32() {
+    let (a, b, c) = arrange(mk(0), mk(1), mk(1));
     kani::cover!(true, "COV reached");
     law_triple(&a, &b, &c);
 }
 #[kani::proof]
-fn f3_i32_i64() {
-    let (a, b, c) = arrange(mk(6), mk(1), mk(2));
+fn triple_extant_i32_i64() {
+    let (a, b, c) = arrange(mk(0), mk(1), mk(2));
     kani::cover!(true, "COV reached");
     law_triple(&a, &b, &c);
 }
 #[kani::proof]
-fn f3_i32_u32() {
-    let (a, b, c) = arrange(mk(6), mk(1), mk(3));
+fn triple_extant_i32_u32() {
+    let (a, b, c) = arrange(mk(0), mk(1), mk(3));
     kani::cover!(true, "COV reached");
     law_triple(&a, &b, &c);
 }
 #[kani::proof]
-fn f3_i32_u64() {
-    let (a, b, c) = arrange(mk(6), mk(1), mk(4));
+fn triple_extant_i32_u64() {
+    let (a, b, c) = arrange(mk(0), mk(1), mk(4));
     kani::cover!(true, "COV reached");
     law_triple(&a, &b, &c);
 }
 #[kani::proof]
-fn f3_i32_bool() {
-    let (a, b, c) = arrange(mk(6), mk(1), mk(5));
+fn triple_extant_i32_bool() {
+    let (a, b, c) = arrange(mk(0), mk(1), mk(5));
     kani::cover!(true, "COV reached");
     law_triple(&a, &b, &c);
 }
 #[kani::proof]
-fn f3_i32_f64() {
-    let (a, b, c) = arrange(mk(6), mk(1), mk(6));
+fn triple_extant_i32_f64() {
+    let (a, b, c) = arrange(mk(0), mk(1), mk(6));
     kani::cover!(true, "COV reached");
     law_triple(&a, &b, &c);
 }
 #[kani::proof]
-fn f3_i64_i64() {
-    let (a, b, c) = arrange(mk(6), mk(2), mk(2));
+fn triple_extant_i64_i64() {
+    let (a, b, c) = arrange(mk(0), mk(2), mk(2));
     kani::cover!(true, "COV reached");
     law_triple(&a, &b, &c);
 }
 #[kani::proof]
-fn f3_i64_u32() {
-    let (a, b, c) = arrange(mk(6), mk(2), mk(3));
+fn triple_extant_i64_u32() {
+    let (a, b, c) = arrange(mk(0), mk(2), mk(3));
     kani::cover!(true, "COV reached");
     law_triple(&a, &b, &c);
 }
 #[kani::proof]
-fn f3_i64_u64() {
-    let (a, b, c) = arrange(mk(6), mk(2), mk(4));
+fn triple_extant_i64_u64() {
+    let (a, b, c) = arrange(mk(0), mk(2), mk(4));
     kani::cover!(true, "COV reached");
     law_triple(&a, &b, &c);
 }
 #[kani::proof]
-fn f3_i64_bool() {
-    let (a, b, c) = arrange(mk(6), mk(2), mk(5));
+fn triple_extant_i64_bool() {
+    let (a, b, c) = arrange(mk(0), mk(2), mk(5));
     kani::cover!(true, "COV reached");
     law_triple(&a, &b, &c);
 }
 #[kani::proof]
-fn f3_i64_f64() {
-    let (a, b, c) = arrange(mk(6), mk(2), mk(6));
+fn triple_extant_i64_f64() {
+    let (a, b, c) = arrange(mk(0), mk(2), mk(6));
     kani::cover!(true, "COV reached");
     law_triple(&a, &b, &c);
 }
 #[kani::proof]
-fn f3_u32_u32() {
-    let (a, b, c) = arrange(mk(6), mk(3), mk(3));
+fn triple_extant_u32_u32() {
+    let (a, b, c) = arrange(mk(0), mk(3), mk(3));
     kani::cover!(true, "COV reached");
     law_triple(&a, &b, &c);
 }
 #[kani::proof]
-fn f3_u32_u64() {
-    let (a, b, c) = arrange(mk(6), mk(3), mk(4));
+fn triple_extant_u32_u64() {
+    let (a, b, c) = arrange(mk(0), mk(3), mk(4));
     kani::cover!(true, "COV reached");
     law_triple(&a, &b, &c);
 }
 #[kani::proof]
-fn f3_u32_bool() {
-    let (a, b, c) = arrange(mk(6), mk(3), mk(5));
+fn triple_extant_u32_bool() {
+    let (a, b, c) = arrange(mk(0), mk(3), mk(5));
     kani::cover!(true, "COV reached");
     law_triple(&a, &b, &c);
 }
 #[kani::proof]
-fn f3_u32_f64() {
-    let (a, b, c) = arrange(mk(6), mk(3), mk(6));
+fn triple_extant_u32_f64() {
+    let (a, b, c) = arrange(mk(0), mk(3), mk(6));
     kani::cover!(true, "COV reached");
     law_triple(&a, &b, &c);
 }
 #[kani::proof]
-fn f3_u64_u64() {
-    let (a, b, c) = arrange(mk(6), mk(4), mk(4));
+fn triple_extant_u64_u64() {
+    let (a, b, c) = arrange(mk(0), mk(4), mk(4));
     kani::cover!(true, "COV reached");
     law_triple(&a, &b, &c);
 }
 #[kani::proof]
-fn f3_u64_bool() {
-    let (a, b, c) = arrange(mk(6), mk(4), mk(5));
+fn triple_extant_u64_bool() {
+    let (a, b, c) = arrange(mk(0), mk(4), mk(5));
     kani::cover!(true, "COV reached");
     law_triple(&a, &b, &c);
 }
 #[kani::proof]
-fn f3_u64_f64() {
-    let (a, b, c) = arrange(mk(6), mk(4), mk(6));
+fn triple_extant_u64_f64() {
+    let (a, b, c) = arrange(mk(0), mk(4), mk(6));
     kani::cover!(true, "COV reached");
     law_triple(&a, &b, &c);
 }
 #[kani::proof]
-fn f3_bool_bool() {
-    let (a, b, c) = arrange(mk(6), mk(5), mk(5));
+fn triple_extant_bool_bool() {
+    let (a, b, c) = arrange(mk(0), mk(5), mk(5));
     kani::cover!(true, "COV reached");
     law_triple(&a, &b, &c);
 }
 #[kani::proof]
-fn f3_bool_f64() {
-    let (a, b, c) = arrange(mk(6), mk(5), mk(6));
+fn triple_extant_bool_f64() {
+    let (a, b, c) = arrange(mk(0), mk(5), mk(6));
     kani::cover!(true, "COV reached");
     law_triple(&a, &b, &c);
 }
 #[kani::proof]
-fn f3_f64_f64() {
+fn triple_extant_f64_f64() {
+    let (a, b, c) = arrange(mk(0), mk(6), mk(6));
+    kani::cover!(true, "COV reached");
+    law_triple(&a, &b, &c);
+}
+#[kani::proof]
+fn triple_i32_i32_i32() {
+    let (a, b, c) = arrange(mk(1), mk(1), mk(1));
+    kani::cover!(true, "COV reached");
+    law_triple(&a, &b, &c);
+}
+#[kani::proof]
+fn triple_i32_i32_i64() {
+    let (a, b, c) = arrange(mk(1), mk(1), mk(2));
+    kani::cover!(true, "COV reached");
+    law_triple(&a, &b, &c);
+}
+#[kani::proof]
+fn triple_i32_i32_u32() {
+    let (a, b, c) = arrange(mk(1), mk(1), mk(3));
+    kani::cover!(true, "COV reached");
+    law_triple(&a, &b, &c);
+}
+#[kani::proof]
+fn triple_i32_i32_u64() {
+    let (a, b, c) = arrange(mk(1), mk(1), mk(4));
+    kani::cover!(true, "COV reached");
+    law_triple(&a, &b, &c);
+}
+#[kani::proof]
+fn triple_i32_i32_bool() {
+    let (a, b, c) = arrange(mk(1), mk(1), mk(5));
+    kani::cover!(true, "COV reached");
+    law_triple(&a, &b, &c);
+}
+#[kani::proof]
+fn triple_i32_i32_f64() {
+    let (a, b, c) = arrange(mk(1), mk(1), mk(6));
+    kani::cover!(true, "COV reached");
+    law_triple(&a, &b, &c);
+}
+#[kani::proof]
+fn triple_i32_i64_i64() {
+    let (a, b, c) = arrange(mk(1), mk(2), mk(2));
+    kani::cover!(true, "COV reached");
+    law_triple(&a, &b, &c);
+}
+#[kani::proof]
+fn triple_i32_i64_u32() {
+    let (a, b, c) = arrange(mk(1), mk(2), mk(3));
+    kani::cover!(true, "COV reached");
+    law_triple(&a, &b, &c);
+}
+#[kani::proof]
+fn triple_i32_i64_u64() {
+    let (a, b, c) = arrange(mk(1), mk(2), mk(4));
+    kani::cover!(true, "COV reached");
+    law_triple(&a, &b, &c);
+}
+#[kani::proof]
+fn triple_i32_i64_bool() {
+    let (a, b, c) = arrange(mk(1), mk(2), mk(5));
+    kani::cover!(true, "COV reached");
+    law_triple(&a, &b, &c);
+}
+#[kani::proof]
+fn triple_i32_i64_f64() {
+    let (a, b, c) = arrange(mk(1), mk(2), mk(6));
+    kani::cover!(true, "COV reached");
+    law_triple(&a, &b, &c);
+}
+#[kani::proof]
+fn triple_i32_u32_u32() {
+    let (a, b, c) = arrange(mk(1), mk(3), mk(3));
+    kani::cover!(true, "COV reached");
+    law_triple(&a, &b, &c);
+}
+#[kani::proof]
+fn triple_i32_u32_u64() {
+    let (a, b, c) = arrange(mk(1), mk(3), mk(4));
+    kani::cover!(true, "COV reached");
+    law_triple(&a, &b, &c);
+}
+#[kani::proof]
+fn triple_i32_u32_bool() {
+    let (a, b, c) = arrange(mk(1), mk(3), mk(5));
+    kani::cover!(true, "COV reached");
+    law_triple(&a, &b, &c);
+}
+#[kani::proof]
+fn triple_i32_u32_f64() {
+    let (a, b, c) = arrange(mk(1), mk(3), mk(6));
+    kani::cover!(true, "COV reached");
+    law_triple(&a, &b, &c);
+}
+#[kani::proof]
+fn triple_i32_u64_u64() {
+    let (a, b, c) = arrange(mk(1), mk(4), mk(4));
+    kani::cover!(true, "COV reached");
+    law_triple(&a, &b, &c);
+}
+#[kani::proof]
+fn triple_i32_u64_bool() {
+    let (a, b, c) = arrange(mk(1), mk(4), mk(5));
+    kani::cover!(true, "COV reached");
+    law_triple(&a, &b, &c);
+}
+#[kani::proof]
+fn triple_i32_u64_f64() {
+    let (a, b, c) = arrange(mk(1), mk(4), mk(6));
+    kani::cover!(true, "COV reached");
+    law_triple(&a, &b, &c);
+}
+#[kani::proof]
+fn triple_i32_bool_bool() {
+    let (a, b, c) = arrange(mk(1), mk(5), mk(5));
+    kani::cover!(true, "COV reached");
+    law_triple(&a, &b, &c);
+}
+#[kani::proof]
+fn triple_i32_bool_f64() {
+    let (a, b, c) = arrange(mk(1), mk(5), mk(6));
+    kani::cover!(true, "COV reached");
+    law_triple(&a, &b, &c);
+}
+#[kani::proof]
+fn triple_i32_f64_f64() {
+    let (a, b, c) = arrange(mk(1), mk(6), mk(6));
+    kani::cover!(true, "COV reached");
+    law_triple(&a, &b, &c);
+}
+#[kani::proof]
+fn triple_i64_i64_i64() {
+    let (a, b, c) = arrange(mk(2), mk(2), mk(2));
+    kani::cover!(true, "COV reached");
+    law_triple(&a, &b, &c);
+}
+#[kani::proof]
+fn triple_i64_i64_u32() {
+    let (a, b, c) = arrange(mk(2), mk(2), mk(3));
+    kani::cover!(true, "COV reached");
+    law_triple(&a, &b, &c);
+}
+#[kani::proof]
+fn triple_i64_i64_u64() {
+    let (a, b, c) = arrange(mk(2), mk(2), mk(4));
+    kani::cover!(true, "COV reached");
+    law_triple(&a, &b, &c);
+}
+#[kani::proof]
+fn triple_i64_i64_bool() {
+    let (a, b, c) = arrange(mk(2), mk(2), mk(5));
+    kani::cover!(true, "COV reached");
+    law_triple(&a, &b, &c);
+}
+#[kani::proof]
+fn triple_i64_i64_f64() {
+    let (a, b, c) = arrange(mk(2), mk(2), mk(6));
+    kani::cover!(true, "COV reached");
+    law_triple(&a, &b, &c);
+}
+#[kani::proof]
+fn triple_i64_u32_u32() {
+    let (a, b, c) = arrange(mk(2), mk(3), mk(3));
+    kani::cover!(true, "COV reached");
+    law_triple(&a, &b, &c);
+}
+#[kani::proof]
+fn triple_i64_u32_u64() {
+    let (a, b, c) = arrange(mk(2), mk(3), mk(4));
+    kani::cover!(true, "COV reached");
+    law_triple(&a, &b, &c);
+}
+#[kani::proof]
+fn triple_i64_u32_bool() {
+    let (a, b, c) = arrange(mk(2), mk(3), mk(5));
+    kani::cover!(true, "COV reached");
+    law_triple(&a, &b, &c);
+}
+#[kani::proof]
+fn triple_i64_u32_f64() {
+    let (a, b, c) = arrange(mk(2), mk(3), mk(6));
+    kani::cover!(true, "COV reached");
+    law_triple(&a, &b, &c);
+}
+#[kani::proof]
+fn triple_i64_u64_u64() {
+    let (a, b, c) = arrange(mk(2), mk(4), mk(4));
+    kani::cover!(true, "COV reached");
+    law_triple(&a, &b, &c);
+}
+#[kani::proof]
+fn triple_i64_u64_bool() {
+    let (a, b, c) = arrange(mk(2), mk(4), mk(5));
+    kani::cover!(true, "COV reached");
+    law_triple(&a, &b, &c);
+}
+#[kani::proof]
+fn triple_i64_u64_f64() {
+    let (a, b, c) = arrange(mk(2), mk(4), mk(6));
+    kani::cover!(true, "COV reached");
+    law_triple(&a, &b, &c);
+}
+#[kani::proof]
+fn triple_i64_bool_bool() {
+    let (a, b, c) = arrange(mk(2), mk(5), mk(5));
+    kani::cover!(true, "COV reached");
+    law_triple(&a, &b, &c);
+}
+#[kani::proof]
+fn triple_i64_bool_f64() {
+    let (a, b, c) = arrange(mk(2), mk(5), mk(6));
+    kani::cover!(true, "COV reached");
+    law_triple(&a, &b, &c);
+}
+#[kani::proof]
+fn triple_i64_f64_f64() {
+    let (a, b, c) = arrange(mk(2), mk(6), mk(6));
+    kani::cover!(true, "COV reached");
+    law_triple(&a, &b, &c);
+}
+#[kani::proof]
+fn triple_u32_u32_u32() {
+    let (a, b, c) = arrange(mk(3), mk(3), mk(3));
+    kani::cover!(true, "COV reached");
+    law_triple(&a, &b, &c);
+}
+#[kani::proof]
+fn triple_u32_u32_u64() {
+    let (a, b, c) = arrange(mk(3), mk(3), mk(4));
+    kani::cover!(true, "COV reached");
+    law_triple(&a, &b, &c);
+}
+#[kani::proof]
+fn triple_u32_u32_bool() {
+    let (a, b, c) = arrange(mk(3), mk(3), mk(5));
+    kani::cover!(true, "COV reached");
+    law_triple(&a, &b, &c);
+}
+#[kani::proof]
+fn triple_u32_u32_f64() {
+    let (a, b, c) = arrange(mk(3), mk(3), mk(6));
+    kani::cover!(true, "COV reached");
+    law_triple(&a, &b, &c);
+}
+#[kani::proof]
+fn triple_u32_u64_u64() {
+    let (a, b, c) = arrange(mk(3), mk(4), mk(4));
+    kani::cover!(true, "COV reached");
+    law_triple(&a, &b, &c);
+}
+#[kani::proof]
+fn triple_u32_u64_bool() {
+    let (a, b, c) = arrange(mk(3), mk(4), mk(5));
+    kani::cover!(true, "COV reached");
+    law_triple(&a, &b, &c);
+}
+#[kani::proof]
+fn triple_u32_u64_f64() {
+    let (a, b, c) = arrange(mk(3), mk(4), mk(6));
+    kani::cover!(true, "COV reached");
+    law_triple(&a, &b, &c);
+}
+#[kani::proof]
+fn triple_u32_bool_bool() {
+    let (a, b, c) = arrange(mk(3), mk(5), mk(5));
+    kani::cover!(true, "COV reached");
+    law_triple(&a, &b, &c);
+}
+#[kani::proof]
+fn triple_u32_bool_f64() {
+    let (a, b, c) = arrange(mk(3), mk(5), mk(6));
+    kani::cover!(true, "COV reached");
+    law_triple(&a, &b, &c);
+}
+#[kani::proof]
+fn triple_u32_f64_f64() {
+    let (a, b, c) = arrange(mk(3), mk(6), mk(6));
+    kani::cover!(true, "COV reached");
+    law_triple(&a, &b, &c);
+}
+#[kani::proof]
+fn triple_u64_u64_u64() {
+    let (a, b, c) = arrange(mk(4), mk(4), mk(4));
+    kani::cover!(true, "COV reached");
+    law_triple(&a, &b, &c);
+}
+#[kani::proof]
+fn triple_u64_u64_bool() {
+    let (a, b, c) = arrange(mk(4), mk(4), mk(5));
+    kani::cover!(true, "COV reached");
+    law_triple(&a, &b, &c);
+}
+#[kani::proof]
+fn triple_u64_u64_f64() {
+    let (a, b, c) = arrange(mk(4), mk(4), mk(6));
+    kani::cover!(true, "COV reached");
+    law_triple(&a, &b, &c);
+}
+#[kani::proof]
+fn triple_u64_bool_bool() {
+    let (a, b, c) = arrange(mk(4), mk(5), mk(5));
+    kani::cover!(true, "COV reached");
+    law_triple(&a, &b, &c);
+}
+#[kani::proof]
+fn triple_u64_bool_f64() {
+    let (a, b, c) = arrange(mk(4), mk(5), mk(6));
+    kani::cover!(true, "COV reached");
+    law_triple(&a, &b, &c);
+}
+#[kani::proof]
+fn triple_u64_f64_f64() {
+    let (a, b, c) = arrange(mk(4), mk(6), mk(6));
+    kani::cover!(true, "COV reached");
+    law_triple(&a, &b, &c);
+}
+#[kani::proof]
+fn triple_bool_bool_bool() {
+    let (a, b, c) = arrange(mk(5), mk(5), mk(5));
+    kani::cover!(true, "COV reached");
+    law_triple(&a, &b, &c);
+}
+#[kani::proof]
+fn triple_bool_bool_f64() {
+    let (a, b, c) = arrange(mk(5), mk(5), mk(6));
+    kani::cover!(true, "COV reached");
+    law_triple(&a, &b, &c);
+}
+#[kani::proof]
+fn triple_bool_f64_f64() {
+    let (a, b, c) = arrange(mk(5), mk(6), mk(6));
+    kani::cover!(true, "COV reached");
+    law_triple(&a, &b, &c);
+}
+#[kani::proof]
+fn triple_f64_f64_f64() {
     let (a, b, c) = arrange(mk(6), mk(6), mk(6));
     kani::cover!(true, "COV reached");
     law_triple(&a, &b, &c);
